@@ -27,14 +27,15 @@ fn cases(rec: &Value) -> Vec<Case> {
     let note = r["note"].as_str().unwrap();
     let amt = &r["amount"];
     let prec = r["precision"].as_i64().unwrap();
+    let account = r["account"].as_str().unwrap_or("Assets:Src");
     let prec_yaml = |c: &str| if prec >= 0 { format!("  commodity:\n    {}:\n      precision: {}\n", c, prec) } else { String::new() };
     let mut v = Vec::new();
     // ---- CSV
     let (cell, rule) = if code == "~" { (payee.to_string(), String::new()) } else {
         (format!("K{}|{}", code, payee), "rewrite:\n  - matcher:\n      payee: \"(?s)^K(?P<code>.*?)\\\\|(?P<payee>.*)$\"\n".to_string())
     };
-    let yaml = format!("path: stmt.csv\nencoding: UTF-8\naccount: \"Assets:Src\"\naccount_type: asset\ncommodity: USD\nformat:\n  date: \"%Y-%m-%d\"\n  fields:\n    date: 1\n    amount: 2\n    payee: 3\n    note: 4\n{}{}",
-                       prec_yaml("USD"), rule);
+    let yaml = format!("path: stmt.csv\nencoding: UTF-8\naccount: {}\naccount_type: asset\ncommodity: USD\nformat:\n  date: \"%Y-%m-%d\"\n  fields:\n    date: 1\n    amount: 2\n    payee: 3\n    note: 4\n{}{}",
+                       q(account), prec_yaml("USD"), rule);
     let csv = format!("date,amount,payee,note\n2024-01-05,{},{},{}\n", csv_cell(amt["txt"].as_str().unwrap()), csv_cell(&cell), csv_cell(note));
     v.push(Case { name: "csv", yaml, source: csv, ext: "csv", format: Format::Csv });
     // ---- Camt053 (payee from the entry text, code from the servicer reference; the amount's own spelling is XML decimal)
@@ -45,8 +46,8 @@ fn cases(rec: &Value) -> Vec<Case> {
         let refs = if code == "~" { "<Refs><EndToEndId>NOTPROVIDED</EndToEndId></Refs>".to_string() } else { format!("<Refs><AcctSvcrRef>{}</AcctSvcrRef></Refs>", xml_text(code)) };
         let xml = format!("<?xml version=\"1.0\" encoding=\"UTF-8\"?>\n<Document><BkToCstmrStmt><Stmt>\n<Bal><Tp><CdOrPrtry><Cd>CLBD</Cd></CdOrPrtry></Tp><Amt Ccy=\"CHF\">{a}</Amt><CdtDbtInd>{cd}</CdtDbtInd></Bal>\n<Ntry><Amt Ccy=\"CHF\">{a}</Amt><CdtDbtInd>{cd}</CdtDbtInd><BookgDt><Dt>2024-01-05</Dt></BookgDt><ValDt><Dt>2024-01-05</Dt></ValDt><BkTxCd><Domn><Cd>PMNT</Cd><Fmly><Cd>RCDT</Cd><SubFmlyCd>OTHR</SubFmlyCd></Fmly></Domn></BkTxCd><NtryDtls><Btch><NbOfTxs>1</NbOfTxs></Btch><TxDtls>{refs}<Amt Ccy=\"CHF\">{a}</Amt><CdtDbtInd>{cd}</CdtDbtInd><AddtlTxInf>{p}</AddtlTxInf></TxDtls></NtryDtls><AddtlNtryInf>x</AddtlNtryInf></Ntry>\n</Stmt></BkToCstmrStmt></Document>\n",
                           a = d, cd = cd, refs = refs, p = xml_text(payee));
-        let yaml = format!("path: stmt.xml\nencoding: UTF-8\naccount: \"Assets:Src\"\naccount_type: asset\ncommodity: CHF\nformat:\n{}rewrite:\n  - matcher:\n      additional_transaction_info: \"(?s)^(?P<payee>.*)$\"\n",
-                           if prec >= 0 { prec_yaml("CHF") } else { "  row_order: old_to_new\n".to_string() });
+        let yaml = format!("path: stmt.xml\nencoding: UTF-8\naccount: {}\naccount_type: asset\ncommodity: CHF\nformat:\n{}rewrite:\n  - matcher:\n      additional_transaction_info: \"(?s)^(?P<payee>.*)$\"\n",
+                           q(account), if prec >= 0 { prec_yaml("CHF") } else { "  row_order: old_to_new\n".to_string() });
         v.push(Case { name: "camt", yaml, source: xml, ext: "xml", format: Format::IsoCamt053 });
     }
     v
@@ -97,13 +98,14 @@ pub fn replay(idx: usize, rec: &Value, workdir: &str) -> Value {
         };
         let (y, s, fmt) = (c.yaml.clone(), c.source.clone(), c.format);
         let ext = c.ext;
+        let acct = rec["rec"]["account"].as_str().unwrap_or("Assets:Src").to_string();
         let built = guarded(move || -> Result<Vec<Value>, String> {
             let set = config::load_from_yaml(y.as_bytes()).map_err(|e| format!("config: {}", e))?;
             let entry = set.select(std::path::Path::new(&format!("/data/stmt.{}", ext))).map_err(|e| format!("select: {}", e))?.ok_or("no config selected")?;
             let txns = import::import(s.as_bytes(), fmt, &entry).map_err(|e| format!("import: {}", e))?;
             let mut out = Vec::new();
             for t in &txns {
-                let d = t.to_double_entry("Assets:Src").map_err(|e| format!("to_double_entry: {}", e))?;
+                let d = t.to_double_entry(&acct).map_err(|e| format!("to_double_entry: {}", e))?;
                 out.push(synproj::entry(&okane_core::syntax::LedgerEntry::Txn(d)));
             }
             Ok(out)
@@ -168,7 +170,7 @@ pub fn replay(idx: usize, rec: &Value, workdir: &str) -> Value {
             let a = &rec["rec"]["amount"];
             let want = dec_of(&(a["m"].as_str().unwrap().to_string(), a["neg"].as_bool().unwrap(), a["s"].as_u64().unwrap()));
             let mut nb = Vec::new();
-            if let Some(p) = b[0]["posts"].as_array().unwrap().iter().find(|p| p["account"] == "Assets:Src") {
+            if let Some(p) = b[0]["posts"].as_array().unwrap().iter().find(|p| p["account"] == rec["rec"]["account"].as_str().unwrap_or("Assets:Src")) {
                 numbers(&p["amount"], &mut nb);
             }
             if !(nb.len() >= 1 && dec_of(&nb[0]) == want && nb[0].2 == a["s"].as_u64().unwrap()) {
